@@ -242,8 +242,9 @@ GhostNext(e, w) ==
                 THEN [g1 EXCEPT !.filt = Put(g1.filt, e.pod, [own |-> KeyIPs(mem, KeyOf(pods[e.pod])),
                                                               reserve |-> KeyIPs(mem, PoolPrefix(pods[e.pod]))])]
                 \* the segment of a filter that ends with the key lookup is the one that reads the Pool object
-                ELSE IF e.ev = "Step" /\ e.typ \in {"filter", "preempt"} /\ e.call = "ByKeyAndIPRanges" /\ e.args.key.pool \in DOMAIN poolobj
-                  THEN [g1 EXCEPT !.sizeAt = Put(g1.sizeAt, e.op, poolobj[e.args.key.pool].size)]
+                ELSE IF e.ev = "Step" /\ e.typ \in {"filter", "preempt", "bind"} /\ e.call = "ByKeyAndIPRanges" /\ e.args.key.pool # ""
+                  \* (no Pool object at that moment -- e.g. deleted through the API --: the pool has no size in force for this operation)
+                  THEN [g1 EXCEPT !.sizeAt = Put(g1.sizeAt, e.op, IF e.args.key.pool \in DOMAIN poolobj THEN poolobj[e.args.key.pool].size ELSE 1000)]
                 ELSE g1
         g3 == IF e.ev = "StartPoolUpsert" THEN [g2 EXCEPT !.sizeAt = Put(g2.sizeAt, e.op, e.size)] ELSE g2
         g4a == IF e.ev = "StartApiRelease" THEN [g3 EXCEPT !.apiops = g3.apiops \cup {e.op}] ELSE g3
